@@ -272,12 +272,20 @@ func (f *FieldCopyFromGenerator) genObjectListOrMap() *j.Statement {
 			g.Var().Id("t").Id(f.i.WithType(f.GoElemType))
 
 			g.If(j.Id("!v.Null && !v.Unknown")).BlockFunc(func(g *j.Group) {
+				if f.IsNullable {
+					// t = &Nested{}
+					g.Id("t").Op("=&").Id(f.i.WithType(f.GoElemTypeIndirect)).Values()
+				}
+
+				// A message without fields has nothing to read (its only schema attribute is a placeholder)
+				if m.IsEmpty {
+					return
+				}
+
 				// tf := v
 				g.Id("tf").Op(":=").Id("v")
 
 				if f.IsNullable {
-					// t = &Nested{}
-					g.Id("t").Op("=&").Id(f.i.WithType(f.GoElemTypeIndirect)).Values()
 					// obj := t - obj is just an alias to reuse field generator code
 					g.Id("obj").Op(":=").Id("t")
 				} else {
